@@ -13,3 +13,27 @@ func TestSelfTests(t *testing.T) {
 		t.Error(err)
 	}
 }
+
+func TestSM3Stream(t *testing.T) {
+	msg := make([]byte, 1000)
+	for i := range msg {
+		msg[i] = byte(i * 7)
+	}
+	for _, cut := range []int{0, 1, 63, 64, 65, 500, 999, 1000} {
+		s := NewSM3Stream()
+		s.Write(msg[:cut])
+		s.Write(msg[cut:])
+		if s.Sum() != SM3(msg) {
+			t.Fatalf("stream != one-shot at cut %d", cut)
+		}
+	}
+}
+
+func BenchmarkSM3Stream(b *testing.B) {
+	s := NewSM3Stream()
+	buf := make([]byte, 1<<20)
+	b.SetBytes(1 << 20)
+	for i := 0; i < b.N; i++ {
+		s.Write(buf)
+	}
+}
